@@ -403,8 +403,12 @@ pub fn gen_history(t: &mut Tape, prog: &Program, pf: &Profile) -> Vec<Step> {
                     _ => t.pick(VMOD),
                 };
                 v.push(Step::Set { slot, field, val, dur: None });
-                if t.chance(3, 4) {
-                    v.push(Step::Get { node: x, arg: xarg });
+                match t.pick(8) {
+                    0 => {}
+                    // every key: members that were computed inside a cycle are recomputed on
+                    // their own and lose their participant status
+                    1 | 2 => v.push(Step::Fresh),
+                    _ => v.push(Step::Get { node: x, arg: xarg }),
                 }
             }
             let cs = static_callees(&prog.nodes[x as usize].body);
